@@ -1,4 +1,7 @@
 fn main() {
     // libthread_db calls back into ps_* symbols exported by the executable.
     println!("cargo:rustc-link-arg=-Wl,--export-dynamic");
+    // A non-PIE executable needs no load-time relocation (the PIE build has >100k), which
+    // matters because every debugger session is a fresh exec of this binary.
+    println!("cargo:rustc-link-arg=-no-pie");
 }
